@@ -25,6 +25,58 @@ RULE = (
 
 TARGETED = [
     (
+        "targeted/astral-ranges-of-every-span",
+        '''
+@verification
+def matches_three_blocks(text: str) -> bool:
+    """Check the text."""
+    pattern = f"^[\\U00010000-\\U00010BFF]+$"
+    return match(pattern, text) is not None
+
+
+@verification
+def matches_unaligned_three_blocks(text: str) -> bool:
+    """Check the text."""
+    pattern = f"^[\\U00010005-\\U00010805]{{1,3}}$"
+    return match(pattern, text) is not None
+
+
+@verification
+def matches_two_blocks(text: str) -> bool:
+    """Check the text."""
+    pattern = f"^x[\\U000103F0-\\U00010410]*$"
+    return match(pattern, text) is not None
+
+
+@verification
+def matches_from_bmp(text: str) -> bool:
+    """Check the text."""
+    pattern = f"^[a-\\U00010400]+$"
+    return match(pattern, text) is not None
+
+
+@invariant(lambda self: matches_three_blocks(self.three), "Three blocks.")
+@invariant(lambda self: matches_unaligned_three_blocks(self.unaligned), "Unaligned three blocks.")
+@invariant(lambda self: matches_two_blocks(self.two), "Two blocks.")
+@invariant(lambda self: matches_from_bmp(self.from_bmp), "From the basic plane.")
+class Something(DBC):
+    three: str
+    unaligned: str
+    two: str
+    from_bmp: str
+
+    def __init__(self, three: str, unaligned: str, two: str, from_bmp: str) -> None:
+        self.three = three
+        self.unaligned = unaligned
+        self.two = two
+        self.from_bmp = from_bmp
+
+
+__version__ = "dummy"
+__xml_namespace__ = "https://dummy.com"
+''',
+    ),
+    (
         "targeted/constrained-primitive-chain-declared-child-first",
         '''
 @verification
